@@ -1344,6 +1344,16 @@ fn evaluate_in_subquery(left: &ArrayRef, right: &ArrayRef, negated: bool) -> Res
                     let right_arr = right.as_any().downcast_ref::<StringArray>().unwrap();
                     left_arr.value(i) == right_arr.value(j)
                 }
+                (arrow::datatypes::DataType::Date32, arrow::datatypes::DataType::Date32) => {
+                    let left_arr = left.as_any().downcast_ref::<Date32Array>().unwrap();
+                    let right_arr = right.as_any().downcast_ref::<Date32Array>().unwrap();
+                    left_arr.value(i) == right_arr.value(j)
+                }
+                (arrow::datatypes::DataType::Boolean, arrow::datatypes::DataType::Boolean) => {
+                    let left_arr = left.as_any().downcast_ref::<BooleanArray>().unwrap();
+                    let right_arr = right.as_any().downcast_ref::<BooleanArray>().unwrap();
+                    left_arr.value(i) == right_arr.value(j)
+                }
                 _ => {
                     return Err(QueryError::NotImplemented(format!(
                         "IN subquery not supported for types: {:?} IN {:?}",
